@@ -65,6 +65,10 @@ SHAPES = {
 
 def wd_string(wd, twd_rel, relative_wd):
     """The working_dir value handed to Target: absolute, or relative to the process cwd (= wd)."""
+    if relative_wd == "dotted":  # absolute but not in normal form
+        return f"{wd}/sub/.." if twd_rel == "" else f"{wd}/./{twd_rel}"
+    if relative_wd == "slashes":
+        return f"{wd}//" if twd_rel == "" else f"{wd}//{twd_rel}/"
     if relative_wd:
         return "." if twd_rel == "" else "./" + twd_rel
     return wd if twd_rel == "" else f"{wd}/{twd_rel}"
@@ -160,7 +164,7 @@ def pair_items():
     return items
 
 
-WDCFG = [("", False), ("sub", False), ("", True), ("sub", True)]
+WDCFG = [("", False), ("sub", False), ("", True), ("sub", True), ("", "dotted"), ("sub", "dotted"), ("", "slashes")]
 
 
 def pair_batch(acc, batch):
@@ -204,7 +208,7 @@ def all_batch(acc, batch, offsets=range(NSPELL)):
             tdefs = []
             for i, r in enumerate(combo):
                 twd = "sub" if (i + off) % 3 == 1 else ""
-                tdefs.append(dict(name=f"T{i}", twd_rel=twd, relative_wd=(i + off) % 4 == 3,
+                tdefs.append(dict(name=f"T{i}", twd_rel=twd, relative_wd=[False, "dotted", False, True, "slashes"][(i + off) % 5],
                                   ins=[(j, next(cnt) % NSPELL) for j in range(3) if r[j] == "i"],
                                   outs=[(j, next(cnt) % NSPELL) for j in range(3) if r[j] == "o"],
                                   shape=list(SHAPES)[(i + off) % len(SHAPES)]))
